@@ -591,8 +591,7 @@ def check_exprcall(ctx, i):
 def run(ctx):
     quick = ctx.tier == "quick"
     for i in range(len(EXPR_CALLS)):
-        if ctx.mine(i) or True:   # tiny table: every shard runs it (keeps floors shard-independent)
-            check_exprcall(ctx, i)
+        check_exprcall(ctx, i)   # tiny table: every shard runs it
     rng = ctx.rng("blocks")
     n_max = 500 if quick else 25000
     i = 0
